@@ -234,6 +234,16 @@ def evalLine (o : Ops) (w : Nat) (op : String) (a : Array UInt64) : Option Eval 
         | some p, some q => some (p && q)
         | _, _ => none
       some ⟨some #[b2u (colE 0) ||| (b2u (colE 1) <<< 1), b2u (colN 0) ||| (b2u (colN 1) <<< 1)], pairMask #[colS 0, colS 1]⟩
+  | "eqU_mS" =>
+      -- every matrix shape: element (c, r) of the C×R matrices is pair (c*R + r) % 4; one result bit per column, shapes 2x2 … 4x4
+      let k := g 8
+      let pairE (p : Nat) : Bool := o.eqV (g (2*p)) (g (2*p+1)) k
+      let cols : List (Nat × Nat) := [(2,2),(2,3),(2,4),(3,2),(3,3),(3,4),(4,2),(4,3),(4,4)].flatMap fun (cr : Nat × Nat) => (List.range cr.1).map fun c => (cr.2, c)
+      let colE (rc : Nat × Nat) : Bool := (List.range rc.1).all fun r => pairE ((rc.2 * rc.1 + r) % 4)
+      let pack (f : Nat × Nat → Bool) : UInt64 := (cols.foldl (fun (acc : UInt64 × UInt64) rc => (acc.1 ||| (b2u (f rc) <<< acc.2), acc.2 + 1)) (0, 0)).1
+      let e := pack colE
+      let n := pack fun rc => !(colE rc)
+      some ⟨some #[e, n, e, n], #[silent, silent, silent, silent]⟩
   | "eqE_s" =>
       let d := o.sub (g 0) (g 1)
       some ⟨some #[b2u (o.leAbs d (g 2)), b2u (o.gtAbs d (g 2))], #[exact (b2u (o.sLeAbs d (g 2))), exact (b2u (o.sGtAbs d (g 2)))]⟩
@@ -277,7 +287,7 @@ def arity (op : String) : Nat :=
   | "vnextNv" | "vprevNv" | "gvnextNv" | "gvprevNv" | "vdist" | "gvdist" => 4
   | "eqU_v" | "eqE_v" | "eps_v" => 5
   | "eqU_vk" | "eqE_vv" | "eps_vv" => 6
-  | "eqU_m" | "eqE_m" | "eqE_q" | "eps_q" => 9
+  | "eqU_m" | "eqU_mS" | "eqE_m" | "eqE_q" | "eps_q" => 9
   | _ => 0
 
 structure OpStat where
